@@ -27,6 +27,7 @@ class Ctx(object):
         self.notes = []
         self._programs = {}
         self.audit = None
+        self.config = os.environ.get("LCDB_CONFIG", "real")
 
     # -- program access ---------------------------------------------------
     def program(self, config="real"):
@@ -39,7 +40,7 @@ class Ctx(object):
 
     @property
     def P(self):
-        return self.program("real")
+        return self.program(self.config)
 
     def fn(self, name, file=None, P=None):
         f = (P or self.P).fn(name, file)
@@ -73,6 +74,31 @@ class Ctx(object):
 
     def note(self, s):
         self.notes.append(s)
+
+
+# violations that exist only in a non-shipped build configuration, each with its reason
+CONFIG_EXCEPTIONS = {
+    ("debug", "T3a-lockset", "ldb_open"): "assert(db->mem != NULL) after the unlock and before the handle is published (debug build only)",
+    ("debug", "T2-no-abort-on-io", "builder_save_to"): "#ifndef NDEBUG consistency check of level ordering; compiled out of the shipped build",
+}
+
+
+def run_audit(prop):
+    """Mutant audit of one property (thorough tier, after a passing verdict):
+    every seeded mutation must be caught, every neutral rewrite must stay
+    silent.  Reported in the evidence; never changes the verdict."""
+    import subprocess
+    env = dict(os.environ)
+    env.pop("VERIF_TIER", None)
+    r = subprocess.run([sys.executable, "-m", "sa.mutants", "--props", prop, "--jobs", "8"], cwd=VERIF, env=env,
+                       capture_output=True, text=True)
+    lines = [l for l in r.stdout.splitlines() if l[:6] in ("CAUGHT", "MISSED", "SILENT", "NOISY ", "SKIP  ")]
+    res = {"caught": len([l for l in lines if l.startswith("CAUGHT")]),
+           "missed": [l.split()[1] for l in lines if l.startswith("MISSED")],
+           "silent": len([l for l in lines if l.startswith("SILENT")]),
+           "noisy": [l.split()[1] for l in lines if l.startswith("NOISY")],
+           "skipped": [l.split()[1] for l in lines if l.startswith("SKIP")]}
+    return res
 
 
 def load_known():
@@ -154,6 +180,20 @@ def run(prop, tier, seed, replay=None):
         if len(ctx.obl) < minimum:
             raise AnalysisBroken("only %d obligations evaluated, hand-confirmed minimum is %d"
                                  % (len(ctx.obl), minimum))
+        if tier == "thorough" and ctx.config == "real" and not os.environ.get("VERIF_AUDIT"):
+            # the same rules on the other build configurations of the POSIX port
+            for cfg in ("debug", "pread"):
+                n0 = len(ctx.obl)
+                ctx.config = cfg
+                try:
+                    mod.check(ctx)
+                finally:
+                    ctx.config = "real"
+                for o in ctx.obl[n0:]:
+                    o["rule"] = "%s[%s]" % (o["rule"], cfg)
+                    o["config"] = cfg
+                ctx.nontrivial |= {("%s[%s]" % (o["rule"], cfg), o["instance"]) for o in ctx.obl[n0:]}
+                ctx.note("configuration %s: %d obligations" % (cfg, len(ctx.obl) - n0))
     except AnalysisBroken as e:
         print("ANALYSIS-BROKEN property=%s: %s" % (prop, e))
         try:
@@ -162,6 +202,12 @@ def run(prop, tier, seed, replay=None):
         except Exception:
             pass
         return 2
+    viol = [o for o in ctx.obl if o["verdict"] == "violation"]
+    # build-configuration specific exceptions (thorough tier)
+    for o in viol:
+        if o.get("config") and (o.get("config"), o["rule"].split("[")[0], o.get("function")) in CONFIG_EXCEPTIONS:
+            o["verdict"] = "ok"
+            o["detail"] = "listed for this configuration: " + CONFIG_EXCEPTIONS[(o["config"], o["rule"].split("[")[0], o.get("function"))]
     viol = [o for o in ctx.obl if o["verdict"] == "violation"]
     new = []
     for o in viol:
@@ -184,6 +230,14 @@ def run(prop, tier, seed, replay=None):
                 print("    path: " + " -> ".join(str(x) for x in o["path"][:40]))
         print("VIOLATION property=%s replay=%s" % (prop, rp))
         rc = 1
+    if tier == "thorough" and rc == 0 and not os.environ.get("VERIF_AUDIT") and not os.environ.get("LCDB_SCRATCH_OF"):
+        try:
+            ctx.audit = run_audit(prop)
+            print("mutant audit: %d caught, %d missed %s, %d neutral silent, %d noisy %s, %d skipped" %
+                  (ctx.audit["caught"], len(ctx.audit["missed"]), ctx.audit["missed"], ctx.audit["silent"],
+                   len(ctx.audit["noisy"]), ctx.audit["noisy"], len(ctx.audit["skipped"])))
+        except Exception as ex:      # the audit is advisory
+            ctx.audit = {"error": str(ex)}
     write_evidence(ctx, getattr(mod, "EXPLANATION", ""), getattr(mod, "RULE", ""), len(new),
                    extra=getattr(mod, "extra_evidence", lambda c: None)(ctx),
                    assumptions=getattr(mod, "ASSUMPTIONS", []))
